@@ -9,7 +9,9 @@
      itfs   the interfaces of the package whose objects are exchanged
      lines  the IDL text of the package, one string per line
      acts   per action, in the order of the text: kind, id, name, cls, number
-            of parameters, void, initial value (properties) with the
+            of parameters, void, go (the Go name the generators give it, first
+            letter still lower case: IdlRpc!GoName), grp (overload group),
+            psig (parameter signature), initial value (properties) with the
             references inside it
      ops    the operations with concrete values and expected observations;
             an object slot of a value is [slot |-> n]: the n-th entry of
@@ -22,25 +24,29 @@ SeqOfStrings(S) == IF S = {} THEN <<>> ELSE LET x == CHOOSE y \in S : TRUE IN <<
 
 ItfClass == IF \E i \in chosen : Special(i)
             THEN ThePool[CHOOSE i \in chosen : Special(i)].cls
-            ELSE IF \E i \in chosen : ThePool[i].cls = "object" THEN "object" ELSE "plain"
+            ELSE IF \E i \in chosen : ThePool[i].cls = "object" THEN "object"
+            ELSE IF \E i \in chosen : ThePool[i].cls = "overload" THEN "overload" ELSE "plain"
 ActOut(i) == LET a == ThePool[i]
                  ss == ArgSlots(a, InitK)
              IN [kind |-> a.kind, id |-> a.id, name |-> a.name, cls |-> a.cls, np |-> Len(a.ps),
-                 void |-> (a.ret = Void),
+                 void |-> (a.ret = Void), go |-> GoName(i), grp |-> a.grp, psig |-> ParamSig(a),
                  init |-> IF a.kind = "property" THEN Args(a, InitK) ELSE <<>>,
                  initobjs |-> IF a.kind = "property"
                               THEN Unsent(Picks(SHeld0, Table0, ss, 1), ss, SHeld0, Table0) ELSE <<>>]
 OpOut(h) == IF h.idx = 0
             THEN [op |-> h.op, id |-> 0, deliver |-> FALSE, args |-> <<>>, ret |-> <<>>, j |-> 0,
                   side |-> h.side, h |-> h.h, g |-> h.g, objs |-> h.objs, robjs |-> h.robjs,
-                  exec |-> h.exec, dev |-> h.dev]
+                  exec |-> h.exec, dev |-> h.dev, ran |-> 0, rango |-> ""]
             ELSE LET a == ThePool[h.idx]
                  IN [op |-> h.op, id |-> h.id, deliver |-> h.deliver,
                      args |-> IF h.op \in {"call", "emit", "set"} THEN Args(a, h.k) ELSE <<>>,
                      ret |-> IF h.op = "call" /\ h.r # 0 THEN <<Val(a.ret, h.r)>>
                              ELSE IF h.op = "get" THEN Args(a, h.r) ELSE <<>>,
                      j |-> h.j, side |-> h.side, h |-> h.h, g |-> h.g, objs |-> h.objs, robjs |-> h.robjs,
-                     exec |-> h.exec, dev |-> h.dev]
+                     exec |-> h.exec, dev |-> h.dev,
+                     \* the method the object must execute: its uid and its Go name (the implementor's method)
+                     ran |-> IF h.ran = 0 THEN 0 ELSE ThePool[h.ran].id,
+                     rango |-> IF h.ran = 0 THEN "" ELSE GoName(h.ran)]
 Scenario == [cls |-> ItfClass, key |-> ChosenSeq, layout |-> layout, itfs |-> SeqOfStrings(PkgItfs),
              lines |-> IdlText,
              acts |-> [j \in DOMAIN ChosenSeq |-> ActOut(ChosenSeq[j])],
